@@ -141,7 +141,7 @@ func c01(r *Report, s *Sem) {
 	R1 := r.Rule("R1", "field-coverage symmetry: every exported field of each envelope kind / document wrapper is read by its struct→wire function and written by its wire→struct function (embedded structs flattened, callees followed), and the set of wire-struct fields the encoder writes equals the set the decoder reads", 60)
 	R2 := r.Rule("R2", "MarshalJSON marshals the value returned by the struct→wire function and UnmarshalJSON unmarshals into the same wire struct type and populates from it (one set of JSON tags for both directions)", 14)
 	R3 := r.Rule("R3", "discriminator soundness: interpreting the kind discriminator over the nil-lattice with each kind's must-set / may-set wire fields yields exactly one tag, and the wire→envelope switch constructs that kind's type for it", 10)
-	R4 := r.Rule("R4", "every byte-level Transport.Receive returns only the result of the shared wire→envelope conversion (no second discriminator)", 2)
+	R4 := r.Rule("R4", "every byte-level Transport.Receive returns only the result of the shared wire→envelope conversion (no second discriminator), decoded into a fresh local wire struct on every call", 4)
 	R5 := r.Rule("R5", "registries agree with their keys: one authentication factory per scheme constant whose product reports that same scheme; document factories are keyed by their product's MediaType(), which is a constant-return function for every in-repo document type", 16)
 	R6 := r.Rule("R6", "text forms agree: the separator literals printed by String() equal those the parser splits on; enum MarshalText/UnmarshalText both validate and Validate accepts exactly the declared constants; URI delegates to net/url both ways", 12)
 	r.Trusted = append(r.Trusted, "well-formedness assumed for R3: request has method+uri, response has method+status, notification has event, message has content+type, session has state")
@@ -330,11 +330,17 @@ func c01(r *Report, s *Sem) {
 		r.Check(R4, "func "+fnName(recv)+" / result", p.pos(recv.Pos()), ok && n > 0, why)
 	}
 
+	checkFreshDecodeTarget(r, s, R4)
+
 	// ---- R5
 	c01Registries(r, s, R5)
 
 	// ---- R6
 	c01TextForms(r, s, R6)
+	R7 := r.Rule("R7", "text-form parsers return only verbatim pieces of their input (split/slice of the parameter, or a sibling parser applied to such a piece): no call may transform characters between the text and the parsed value, since the printer writes the fields verbatim", 3)
+	checkVerbatimParsers(r, R7)
+	R8 := r.Rule("R8", "co-presence symmetry: when the encoder emits a wire member only together with another struct field being present, the decoder stores the corresponding field only when that other member is present on the wire", 10)
+	checkCoPresence(r, R8)
 }
 
 func mapTags(tags []string, m map[string]string) []string {
